@@ -76,6 +76,8 @@ class C13(Prop):
             # the k-th sendall after the handshake request fails: the loop is then abandoned after a failed write too
             "send_fault": st.one_of(st.none(), st.none(), st.tuples(st.integers(1, 4), st.sampled_from(
                 ["timeout", "oserror", "exc", "reset"])).map(list)),
+            # an earlier connection in this process (same WebSocket object or another) and how it ended
+            "prelude": gen.prelude(6),
         })
 
     def run_case(self, case):
